@@ -121,7 +121,11 @@ class DtnTimeField(UintField):
         return dtval
 
     def i2repr(self, pkt, x):
-        return self.i2h(pkt, x)
+        try:
+            return self.i2h(pkt, x)
+        except OverflowError:
+            # beyond the calendar, but still a valid DTN time to show
+            return x
 
     def h2i(self, pkt, x):
         return self.any2i(pkt, x)
